@@ -90,6 +90,11 @@ def gen(seed):
     knobs = common.sched_knobs(rng)
     knobs['needs_resending'] = rng.random() < 0.3
     knobs['lat'] = rng.choice([(0.0005, 0.003), (0.0, 0.0), (0.002, 0.01)])
+    if knobs['needs_resending'] and rng.random() < 0.6:
+        # acknowledgements of START commands get lost: the block runs and sends data while the library still waits for the
+        # acknowledgement of its retransmitted START (0.2 s later)
+        knobs['rates'] = {'down_loss': rng.choice([0.3, 0.6])}
+        knobs['lose_start_acks'] = True
     version = rng.choice([10, 10, 10, 5, 3])
     big = version >= 4 and rng.random() < 0.08
     dev = wgen.gen_device(rng, n_log=rng.choice([254, 255, 256, 257, 300, 520]) if big else rng.choice([1, 3, 8, 20, 40]),
@@ -139,6 +144,17 @@ def directed(tier):
                       'cfgs': [{'name': 'c', 'period': 10, 'vars': [['toc', 'b.v%d' % i, None] for i in idxs], 'kind': 'ok'}],
                       'ops': [['add', 0], ['start', 0], ['sleep', 0.1], ['stop', 0], ['delete', 0]],
                       'knobs': {'line_mean': 0, 'p_stall': 0.0, 'needs_resending': False, 'lat': (0.001, 0.001)}})
+    # legacy protocol generation: two bytes per variable, so more than 14 variables need an append message too
+    legdev = dict(dev, version=3)
+    for nb in ((13, 14, 15, 26) if tier == 'quick' else range(10, 27)):
+        n += 1
+        vars_ = [['toc', 'g.u8_%d' % (i % 14), None] for i in range(min(nb, 14))] + \
+                [['toc', 'g.u16_%d' % i, 'uint8_t'] for i in range(min(max(nb - 14, 0), 6))] + \
+                [['toc', 'g.f_%d' % i, 'uint8_t'] for i in range(max(nb - 20, 0))]
+        plans.append({'seed': 960000 + n, 'scenario': 'directed-legacy-%d-variables' % nb, 'device': legdev,
+                      'cfgs': [{'name': 'c', 'period': 10, 'vars': vars_, 'kind': 'ok'}],
+                      'ops': [['add', 0], ['start', 0], ['sleep', 0.1], ['stop', 0], ['delete', 0]],
+                      'knobs': {'line_mean': 0, 'p_stall': 0.0, 'needs_resending': False, 'lat': (0.001, 0.001)}})
     for period in (0, 5, 9, 10, 20, 2540, 2550, 2560, 5000):
         n += 1
         plans.append({'seed': 960000 + n, 'scenario': 'directed-period-%d' % period, 'device': dev,
@@ -178,6 +194,18 @@ def execute(ctx):
     sim = ctx.sim
     w, devs = common.make_world(ctx, {'cf': plan['device']})
     w.can_inject = True
+    delivered = []      # (t, bid, ts) of log data packets handed to the library
+    teardowns = []      # times at which close_link / the link error handler were entered
+
+    def on_down(link, header, data):
+        if header & 0xF3 == 0x52 and len(data) >= 4:
+            delivered.append((sim.now, data[0], data[1] | (data[2] << 8) | (data[3] << 16)))
+    w.on_down_delivered = on_down
+    if ctx.knobs.get('lose_start_acks'):
+        w.lossy = lambda direction, header, data: (direction == 'down' and header & 0xF3 == 0x51 and len(data) >= 1 and
+                                                   data[0] == 3)
+    else:
+        w.lossy = lambda direction, header, data: False
     dev = devs['cf']
     ctx.notes['nontrivial'] = plan['scenario'].startswith('directed')
     devlog = plan['device']['log']
@@ -195,7 +223,14 @@ def execute(ctx):
             else:
                 lc.add_memory(v[1], v[2], v[3], v[4])
         c = {'plan': pc, 'obj': lc, 'accepted': None, 'data': [], 'added_ev': [], 'started_ev': [], 'errors': [],
-             'added_session': None, 'vars_at_first_add': None}
+             'added_session': None, 'vars_at_first_add': None, 'known': [], 'delete_calls': []}
+        lc.added_cb.add_callback(lambda *a, c=c: c['known'].append((sim.now, lc.id)) if (a and a[-1]) else None)
+        orig_delete = lc.delete
+
+        def delete(c=c):
+            c['delete_calls'].append(sim.now)
+            return orig_delete()
+        lc.delete = delete
         lc.data_received_cb.add_callback(lambda ts, data, lcf, c=c: c['data'].append((ts, dict(data), st['session'], lcf.id)))
         lc.added_cb.add_callback(lambda *a, c=c: c['added_ev'].append((sim.now, a[-1] if a else None)))
         lc.started_cb.add_callback(lambda *a, c=c: c['started_ev'].append((sim.now, a[-1] if a else None)))
@@ -212,9 +247,23 @@ def execute(ctx):
 
     def settle(t=0.08):
         P.sim_sleep(t)
+        if ctx.knobs.get('lose_start_acks'):
+            # quiescence: no request is waiting for a (retransmitted) acknowledgement any more
+            cf = st.get('cf')
+            if cf is not None:
+                common.wait_until(sim, lambda: not cf._answer_patterns, 20.0, 0.01)
+                P.sim_sleep(0.05)
 
     def scenario():
         cf = Crazyflie()
+        st['cf'] = cf
+        for meth in ('close_link', '_link_error_cb'):
+            def wrap(orig):
+                def f(*a, **k):
+                    teardowns.append(sim.now)
+                    return orig(*a, **k)
+                return f
+            setattr(cf, meth, wrap(getattr(cf, meth)))
         cf.fully_connected.add_callback(lambda uri: got.__setitem__('full', 1))
         if not connect(cf):
             return
@@ -289,6 +338,7 @@ def execute(ctx):
                         return
         settle(0.3)
         check_data(ctx, dev, cfgs, type_of)
+        check_complete(ctx, cfgs, delivered, teardowns, sim.now)
         cf.close_link()
         settle(0.2)
 
@@ -458,6 +508,29 @@ def check_data(ctx, dev, cfgs, type_of):
                         return
     if nsamples:
         ctx.probe('log samples decoded', nsamples)
+
+
+def check_complete(ctx, cfgs, delivered, teardowns, t_end):
+    """Clause 3, completeness: every data packet handed to the library while the block was known to it (its added
+    callback had fired with True, neither delete() nor a tear-down of the link had begun) is decoded and passed on."""
+    margin = 0.05 + (0.6 if ctx.knobs.get('p_stall') else 0.0)
+    for c in cfgs:
+        if not c['accepted'] or c['plan']['kind'] == 'raw-mem':
+            continue
+        decoded = {}
+        for (ts, data, sess, bid) in c['data']:
+            decoded.setdefault(bid, set()).add(ts)
+        for (t0, bid) in c['known']:
+            ends = [t for t in teardowns if t >= t0] + [t for t in c['delete_calls'] if t >= t0] + [t_end]
+            t1 = min(ends) - margin
+            missing = [(t, ts) for (t, b, ts) in delivered if b == bid and t0 <= t <= t1 and ts not in decoded.get(bid, ())]
+            if missing:
+                ctx.violation('3', 'data-packet-not-decoded', 'configuration %s (block %d, known to the library since %.4f): '
+                              '%d data packets were handed to the library and never reached the data callback, first at '
+                              '%.4f with timestamp %d' % (c['plan']['name'], bid, t0, len(missing), missing[0][0],
+                                                           missing[0][1]))
+                return
+    ctx.probe('data packets checked for completeness', len(delivered))
 
 
 def run_synclog(ctx, cf, dev, c, nwant, end, devlog, st, SyncLogger, connect):
